@@ -48,6 +48,11 @@ func (c *FnCtx) anchorAsserts(key string, bind func(env *Env)) {
 		c.anchorsHit[a.Anchor] = true
 		env := c.pointEnv("assert at " + a.Anchor)
 		bind(env)
+		if a.Possible {
+			// a possibility claim: this point stays reachable with the condition true (refuted => violation)
+			c.cover(fmt.Sprintf("cover:possible:%s:%d", normAnchor(a.Anchor), i+1), and(c.reach, c.trClause(env, a.Clause)))
+			continue
+		}
 		c.checkClause(fmt.Sprintf("assert:%s:%d", normAnchor(a.Anchor), i+1), "assert at "+a.Anchor+": "+a.Text, c.reach, env, a.Clause)
 	}
 }
